@@ -82,19 +82,31 @@ func genClasses(r *RNG, n int, prefix string) []*GClass {
 		nm := 2 + r.Intn(4)
 		for k := 0; k < nm; k++ {
 			m := &GMethod{Name: fmt.Sprintf("m%d", k)}
+			objectLike := false
+			if r.Chance(1, 7) {
+				// redeclares a method Object/Kernel also declare, with its own signature
+				m.Name = Pick(r, []string{"to_s", "inspect"})
+				objectLike = true
+			}
 			if i > 0 && r.Chance(1, 3) && len(out[0].Methods) > 1 {
 				// same name as a method of an earlier class (possibly a parent)
 				m.Name = out[r.Intn(i)].Methods[1].Name
 			}
 			np := r.Intn(4)
+			if objectLike && np == 0 {
+				np = 1
+			}
 			seenDefault := false
 			for q := 0; q < np; q++ {
 				p := GParam{Types: []string{Pick(r, gScalarTypes)}}
 				if r.Chance(1, 4) {
-					p.Types = append(p.Types, Pick(r, gScalarTypes))
+					// unions of two to four members
+					for extra := 1 + r.Intn(3); extra > 0; extra-- {
+						p.Types = append(p.Types, Pick(r, gScalarTypes))
+					}
 					p.Types = dedupKeep(p.Types)
 				}
-				if seenDefault || r.Chance(1, 4) {
+				if seenDefault || (r.Chance(1, 4) && !(objectLike && q == 0)) {
 					p.Default = true
 					seenDefault = true
 				}
@@ -116,6 +128,9 @@ func genClasses(r *RNG, n int, prefix string) []*GClass {
 				m.RetArrayOf = Pick(r, []string{"String", "Int", "Float"})
 			case 3:
 				m.Ret = dedupKeep([]string{Pick(r, gScalarTypes), Pick(r, gScalarTypes)})
+				if r.Bool() {
+					m.Ret = dedupKeep(append(m.Ret, Pick(r, gScalarTypes), Pick(r, gScalarTypes)))
+				}
 			case 4:
 				m.Ret = []string{c.Name}
 			default:
@@ -315,6 +330,34 @@ func callProgram(r *RNG, classes []*GClass) string {
 				if len(m.Params) > 0 && m.Params[0].Key == "" && !contains(m.Params[0].Types, "Untyped") {
 					wrong := "[1]"
 					fmt.Fprintf(&sb, "%s.%s(%s)\n", v, m.Name, wrong)
+				}
+			}
+		}
+		// inherited methods called on the subclass instance
+		for _, pn := range c.Extends {
+			for _, pc := range classes {
+				if pc.Name != pn {
+					continue
+				}
+				for mi, m := range pc.Methods {
+					if m.Static {
+						continue
+					}
+					var fit []string
+					for _, p := range m.Params {
+						if p.Key != "" || p.Default {
+							if p.Key != "" && !p.Default {
+								fit = append(fit, p.Key+": "+litForName(p.Types[0]))
+							}
+							continue
+						}
+						fit = append(fit, litForName(p.Types[0]))
+					}
+					call := v + "." + m.Name
+					if len(fit) > 0 {
+						call += "(" + strings.Join(fit, ", ") + ")"
+					}
+					fmt.Fprintf(&sb, "h%d_%d = %s\ndbtp h%d_%d\n", ci, mi, call, ci, mi)
 				}
 			}
 		}
